@@ -142,6 +142,9 @@ def admitsNull (j : JS) : Bool :=
   | .ok s => s.acceptsNull
   | .error _ => false
 
+/-- annotation keywords: they assert nothing (`Kw.other` is vacuous in `jsValid`, and that IS their meaning). -/
+def annotations : List String := ["title", "description", "examples", "default", "$comment", "deprecated", "readOnly", "writeOnly"]
+
 mutual
 partial def why : JS → List String
   | .bool _ => []
@@ -179,12 +182,14 @@ partial def why : JS → List String
     ++ (if hasProps && propKeys.any (fun k => !req.contains k) then ["optional-property-accepts-null"] else [])
     ++ (if (!hasProps && has "additionalProperties" && !req.isEmpty)
           || (hasProps && req.any (fun k => !propKeys.contains k)
-              && ks.any (fun k => match k with | .additionalProperties (.bool false) => true | _ => false))
+              && ks.any (fun k => match k with
+                   | .additionalProperties (.bool true) => false | .additionalProperties _ => true | _ => false))
         then ["required-without-property"] else [])
     ++ (if knownFmt && ["minLength", "maxLength", "pattern"].any has then ["format-siblings-dropped"] else [])
     ++ (if ks.any (fun k => match k with | .enum vs => vs.contains .null | _ => false)
         then ["nullable-union"] else [])
-    ++ (if ks.any (fun k => match k with | .other _ => true | .not _ => true | .propertyNames _ => true | _ => false)
+    ++ (if ks.any (fun k => match k with
+          | .other n => !annotations.contains (strOf n) | .not _ => true | .propertyNames _ => true | _ => false)
         then ["unmodelled-keyword"] else [])
     ++ (if types.contains .object && winner.isNone
           && !(ks.any (fun k => match k with | .additionalProperties (.bool false) => true | _ => false))
